@@ -65,7 +65,9 @@ Definition check_merge_case (c : merge_case) : list (string * bool) :=
               if negb (kind_composite (td_kind t)) then true else
               forallb (fun f =>
                 let is_ns_link := match find_type (ty_name (fd_ty f)) o with Some ft => td_namespace ft | None => false end in
-                if is_ns_link || (td_boundary t && is_id_field f) then true else
+                (* a namespace link belongs to no service: with a routing entry the whole selection below it would go to one *)
+                if is_ns_link then negb (has_key (td_name t +++ "." +++ fd_name f) (obs_locations c)) else
+                if td_boundary t && is_id_field f then true else
                 match owners_of (mc_services c) (td_name t) (fd_name f) with
                 | [u] => option_eqb String.eqb (lookup (td_name t +++ "." +++ fd_name f) (obs_locations c)) (Some u)
                 | _ => false
